@@ -110,6 +110,26 @@ class Unresolvable(Exception):
     """A declaration cannot be spelled unambiguously from a referring scope (shadowed global name)."""
 
 
+GENERATOR_LOCALS = ['r', 'lockAndData', 'identifier', 'log', 'locator', 'shellName', 'prototypeLocator', 'parent', 'result', 'port', 'l']
+
+
+def with_generator_local_names(rng: Rng, spec: dict, percent=35) -> dict:
+    """World B/C only (nothing is compiled there): some formals are called like locals, parameters or members that the
+    generator itself emits.  Whether the C++ produced for such a model compiles is C06's business (not claimed); builds
+    of such models must still be pure, repeatable and independent of one another."""
+    if not rng.chance(percent):
+        return spec
+    for itf in spec['interfaces']:
+        for ev in itf['events']:
+            if not ev['formals'] or not rng.chance(60):
+                continue
+            used = {f['name'] for f in ev['formals']}
+            cand = [n for n in GENERATOR_LOCALS if n not in used]
+            f = rng.choice(ev['formals'])
+            f['name'] = rng.choice(cand[:2]) if rng.chance(50) else rng.choice(cand)
+    return spec
+
+
 def gen_spec(rng: Rng, want_mc: bool = None, min_ports: int = 1, profile: str = 'default', mc_triggers: bool = False) -> dict:
     """Generate a model spec.  want_mc: force (True) / forbid (False) a multi-client capable provides port.
     Only well-formed, unambiguous models are produced: a draft in which some reference has no unambiguous
@@ -181,6 +201,14 @@ def _gen_spec(rng: Rng, want_mc, min_ports, profile, mc_triggers=False) -> dict:
         src['twin'] = True
         fqns.add(tuple(ns + [src['name']]))
         externs.append({'kind': 'extern', 'ns': ns, 'name': src['name'], 'cpp': pair[0], 'codec': pair[1], 'twin': True})
+    # data types spelled as references to const (`extern Msg $const std::string&$`): usable for in-parameters only, and
+    # the caller's argument is then a reference into the caller's frame
+    if rng.chance(30):
+        for _ in range(rng.between(1, 2)):
+            ns = pick_ns()
+            cpp, codec = rng.choice([('const std::string&', 'str'), ('const ::sim::Tracked&', 'tracked'), ('const TokStr &', 'str'),
+                                     ('::sim::Tracked const&', 'tracked'), ('const long&', 'long')])
+            externs.append({'kind': 'extern', 'ns': ns, 'name': fresh_name(ns), 'cpp': cpp, 'codec': codec, 'in_only': True})
     # ---- namespace level enums / subints
     enums = []
     for _ in range(rng.between(1 if want_mc else 0, 3)):
@@ -415,6 +443,8 @@ def _event(rng, evnames, itf, externs, enums, subints, force_dir=None, force_nam
     for _ in range(nform):
         ext = rng.choice(twins) if (twins and rng.chance(50)) else rng.choice(externs)
         fdir = 'in' if direction == 'out' else rng.weighted([(5, 'in'), (3, 'out'), (2, 'inout')])
+        if ext.get('in_only'):
+            fdir = 'in'
         formals.append({'name': fn.ident('formal', rng.choice(['lower', 'any'])), 'dir': fdir,
                         'ext': ext['ns'] + [ext['name']]})
     if force_ret:
